@@ -7,7 +7,7 @@ PROP = "C03"
 PROPS_V = "theories/Props/C03.v"
 THEOREMS = ["C03_select_exact", "C03_read_your_writes", "C03_fragile_outcome_refuted",
             "C03_outcomes_exact_outside_known", "C03_count_refuted", "C03_count_exact_outside_known",
-            "C03_CountDuringFlush_spec", "C03_select_exact_example", "C03_outcomes_exact_example",
+            "C03_count_other_type_exact", "C03_CountDuringFlush_spec", "C03_select_exact_example", "C03_outcomes_exact_example",
             "C03_count_exact_example"]
 RULE = ("engine histories on one shard (STORE/FLUSH/observe, park points inside the flush worker with reads issued "
         "while parked); an observation = QUERY RETURN + COUNT per type and typed REPLAY per (type, context); "
@@ -20,7 +20,7 @@ TRUSTED = ["Coq 8.16.1 kernel + coqc", "extraction (ExtrOcamlBasic) + ocaml/p_sh
            "hooks in /repo under cfg(sneldb_verif): labelled step points"]
 CLAIMED = True
 MANIFEST = {
- "level_text": "Theorems over the shard state machine Model/Shard.v (all crash-free label histories, any interleaving of STORE, manual FLUSH, WAL-thread steps and flush-worker stage labels, any number of queued rotations, any capacity; unique event ids assumed): a selection returns exactly the applied events of the type, each once, at every reachable state (inductive invariant: an applied event is in the memtable, in an unreleased passive copy, or in a complete published segment; the passive copy is released only after publication; nothing scanned was not applied); read-your-writes. Refuted with witnesses and proved exact outside the known classes: a read issued while an in-flight segment has no files of the queried type may return the in-memory rows only (ReadDuringFlushDropsSegmentFlow); COUNT aggregates in-memory rows of every type (CountIgnoresTypeInMemory) and counts rotated rows twice between publication and passive release (CountDuringFlush). The model is validated against the engine by trace validation of hooked runs, with reads issued while the flush worker is parked at each stage.",
+ "level_text": "Theorems over the shard state machine Model/Shard.v (all crash-free label histories, any interleaving of STORE, manual FLUSH, WAL-thread steps and flush-worker stage labels, any number of queued rotations, any capacity; unique event ids assumed): a selection returns exactly the applied events of the type, each once, at every reachable state (inductive invariant: an applied event is in the memtable, in an unreleased passive copy, or in a complete published segment; the passive copy is released only after publication; nothing scanned was not applied); read-your-writes. Refuted with witnesses and proved exact outside the known classes: a read issued while an in-flight segment has no files of the queried type may return the in-memory rows only (ReadDuringFlushDropsSegmentFlow); COUNT counts rotated rows twice between publication and passive release (CountDuringFlush); outside that class COUNT equals the selection whatever other event types memory holds (the former class CountIgnoresTypeInMemory is repaired by fix dc170f4; the model reads the regenerated flag agg_mem_filters_type, so the theorem stops checking if the in-memory aggregate loses the event-type condition again). The model is validated against the engine by trace validation of hooked runs, with reads issued while the flush worker is parked at each stage.",
  "design_ref": "DESIGN.md \u00a76 C03",
  "level_note": "Trusted: Coq kernel; ExtrOcamlBasic extraction + ocaml/p_shard.ml; the engine harness, tools/engine.py, tools/shardlib.py (trace -> label mapping); hooks under cfg(sneldb_verif). Not covered by the theorems: histories with crash/restart (C01), thread interleavings finer than the hook points, more than one shard, compaction. Unique event ids are a hypothesis (C18)."
 }
@@ -122,8 +122,11 @@ def oracle(c, impl):
 
 def classify(c, impl, model=None):
     why = oracle(c, impl) or ""
-    if " cnt" in why:
-        return "CountDuringFlush" if "parked at" in why else "CountIgnoresTypeInMemory"
+    # COUNT differs from the selection: known only while a flush is parked between publication and release
+    # (the double count the model predicts); the former class CountIgnoresTypeInMemory is repaired (dc170f4),
+    # so a wrong COUNT at a quiescent observation is a violation again
+    if " cnt" in why and "parked at" in why:
+        return "CountDuringFlush"
     if "parked at" in why and (" sel" in why or " rp" in why):
         # known only in the states the model marks fragile for that event type (an in-flight segment
         # without files for the type): the model's own account decides, not the mere fact of a park point
